@@ -557,6 +557,46 @@ Proof.
   destruct (is_static x) eqn:E; [|discriminate]. intro H; inversion H; subst. apply Z.leb_le in E. auto.
 Qed.
 
+(* ---- SDPA.check, shape part: the repair (ready/C19_04) makes every accepted match lowerable and keeps masks inside the score shape *)
+Ltac split_eqb H :=
+  repeat match type of H with context [Z.eqb ?x ?y] => let E := fresh "E" in destruct (Z.eqb x y) eqn:E; simpl in H; try discriminate end.
+Ltac eqb_subst := repeat match goal with E : Z.eqb _ _ = true |- _ => apply Z.eqb_eq in E end; subst.
+
+Theorem sdpa_check_fixed_lowerable : forall kb q k v m, sdpa_check true kb q k v m = true ->
+  exists h, sdpa_via_mha_check kb q k v = Some h /\ (0 <= h)%Z.
+Proof.
+  intros kb q k v m H. unfold sdpa_check in H. unfold sdpa_via_mha_check.
+  destruct q as [[|a [|b [|c [|d [|? ?]]]]]|]; simpl in H; try discriminate.
+  destruct k as [[|a1 [|b1 [|c1 [|d1 [|? ?]]]]]|]; try (destruct kb; simpl in H; discriminate).
+  all: destruct kb; simpl in H; split_eqb H.
+  all: destruct v as [[|a2 [|b2 [|c2 [|d2 [|? ?]]]]]|]; simpl in H; try discriminate; split_eqb H.
+  all: eqb_subst; apply andb_prop in H; destruct H as [_ Hs]; exists b; repeat (progress (simpl; rewrite ?Z.eqb_refl)); unfold is_static in *; rewrite Hs;
+    (split; [reflexivity | apply Z.leb_le; exact Hs]).
+Qed.
+Theorem sdpa_check_as_read_refuted : exists kb q k v, sdpa_check false kb q k v None = true /\ sdpa_via_mha_check kb q k v = None
+  /\ sdpa_check true kb q k v None = false.
+Proof. exists true, (Some [2; -2; 3; 4]%Z), (Some [2; -2; 5; 4]%Z), (Some [2; -2; 5; 4]%Z). repeat split; vm_compute; reflexivity. Qed.
+
+(* mask: with static dims the repaired check admits exactly masks that NumPy-broadcast INTO the score shape *)
+Lemma mask_rev_static : forall m c, (0 <= m)%Z -> (0 <= c)%Z ->
+  negb (is_static m && is_static c && negb (m =? 1)%Z && negb (m =? c)%Z) = ((m =? 1) || (m =? c))%Z.
+Proof.
+  intros m c Hm Hc. unfold is_static. apply Z.leb_le in Hm, Hc. rewrite Hm, Hc. simpl.
+  destruct (m =? 1)%Z, (m =? c)%Z; reflexivity.
+Qed.
+Theorem sdpa_mask_fixed_into_score : forall ms B H S T,
+  (forall d, In d ms -> 0 <= d)%Z -> (0 <= B)%Z -> (0 <= H)%Z -> (0 <= S)%Z -> (0 <= T)%Z ->
+  mask_into_score ms [B; H; S; T] = true -> numpy_broadcastable (pad4 ms) [B; H; S; T] = true.
+Proof.
+  intros ms B H S T Hms HB HH HS HT. unfold mask_into_score, pad4.
+  destruct ms as [|m0 [|m1 [|m2 [|m3 [|m4 r]]]]]; simpl; try discriminate; auto.
+  all: repeat rewrite mask_rev_static by (try assumption; apply Hms; simpl; auto 6).
+  all: rewrite ?andb_true_r; auto.
+  all: intro E; repeat (apply andb_prop in E; destruct E as [? E]); repeat (apply andb_true_intro; split); auto.
+Qed.
+
+
+
 (* GroupQueryAttention.check: what it establishes ... *)
 Theorem gqa_check_sound : forall st h16 i h hkv il, gqa_check_rewrite st h16 i = Some (h, hkv, il) ->
   (0 <= h)%Z /\ (0 <= hkv)%Z /\ dim_at (gi_query4 i) 2 = Some h /\ dim_at (gi_key4 i) 2 = Some hkv
